@@ -110,6 +110,8 @@ def parse_spec(path):
                     cur['only'] = rest
                 elif word == 'keepconst':
                     cur['keepconst'] = True
+                elif word == 'bodyless':
+                    cur['bodyless'] = True
                 elif word in ('A', 'B', 'proof', 'proofA', 'proofB'):
                     sec = word
                     if word == 'B':
@@ -544,6 +546,10 @@ class Weaver:
         spec_lines = it['A'] if (self.mode == 'A' or it['B'] is None) else it['B']
         sec_used = 'A' if (self.mode == 'A' or it['B'] is None) else 'B'
         proof = list(it['proof']) + (it['proofA'] if self.mode == 'A' else it['proofB'])
+        if it.get('bodyless'):
+            body = '{ unimplemented!() }'
+            head = '#[verifier::external_body]\n    ' + head
+            log.append('body not verified: signature + contract only (external_body)')
         body = insert_loop_specs(body, it['loops'])
         if self.mode == 'B':
             body, l3 = mode_b_rewrite(body)
